@@ -167,6 +167,26 @@ func runC11(c *Ctx) {
 			decoders = append(decoders, fn)
 		}
 	}
+	// ... and whatever helpers of the package they call (a shared size check, a header
+	// parser): the bytes those look at are the same untrusted bytes
+	{
+		inList := map[*ssa.Function]bool{}
+		for _, d := range decoders {
+			inList[d] = true
+		}
+		for i := 0; i < len(decoders); i++ {
+			w.eachInstr(decoders[i], func(in ssa.Instruction) {
+				call, ok := in.(*ssa.Call)
+				if !ok {
+					return
+				}
+				if h := call.Call.StaticCallee(); h != nil && w.IsMod[h] && len(h.Blocks) > 0 && fnPkgPath(h) == protoPkg.Path() && !inList[h] {
+					inList[h] = true
+					decoders = append(decoders, h)
+				}
+			})
+		}
+	}
 	ruleBounds(c, "C11.2", decoders, 8)
 
 	// ---- C11.3
